@@ -604,7 +604,23 @@ def local_checks(case, ar, check_md=True):
             _check_timeout_partition(spec, I, O, bad, check_md, ar)
             continue
         if op == 'latest':
-            continue        # C14's business
+            # which elements come out is C14's business; that each comes out with the metadata it arrived with is checked here
+            if check_md:
+                arr = [(_v(e[5]), _mdids(e[6])) for e in I]
+                j = 0
+                for e in O:
+                    want = (_v(e[4]), _mdids(e[5]))
+                    k = j
+                    while k < len(arr) and arr[k] != want:
+                        k += 1
+                    bump('latest_outputs_matched_with_their_arrival')
+                    if k == len(arr):
+                        if any(a[0] == want[0] for a in arr[j:]):
+                            bad('metadata', nid, {'delivered': want[0], 'with_metadata_of_n_dicts': len(want[1]),
+                                                  'arrivals_of_that_value_carried': [len(a[1]) for a in arr[j:] if a[0] == want[0]][:6]})
+                        break
+                    j = k + 1
+            continue
         # synchronous op: reference node fed with the observed arrivals
         bump('sync_nodes_checked')
         ups = list(spec.get('ups', [])) + [u for u, v in prog.get('extra_edges', []) if v == nid]
